@@ -10,7 +10,7 @@
     state says.  [rel_history] lifts this to every history. *)
 From Arche Require Import Model.Base Model.Pool Model.Filter Model.World Model.Ops
   Proofs.Tables Proofs.Bits Proofs.Store Proofs.Graph Proofs.Atomic Proofs.WorldInv
-  Proofs.Frame Proofs.StepFrame Proofs.RelGraph Proofs.RelWorld.
+  Proofs.Frame Proofs.StepFrame Proofs.GhostBase Proofs.RelGraph Proofs.GhostGraph Proofs.RelWorld.
 
 (** ** Abstract state *)
 Record aent := mkA { a_mask : N; a_target : Entity; a_vals : list (nat * Z) }.
@@ -539,8 +539,32 @@ Proof.
   intros e Hin. destruct (He e Hin) as (a & Ha & V). exists a. split; [done|]. by apply (views_keep w).
 Qed.
 
-Theorem rel_step w A o :
-  R w A -> op_pre A o -> R (res_world (step w o)) (astep A o (snd (fst (step w o)))).
+(** The world a panicking creation / exchange leaves behind refines the same abstract store:
+    no entity, mask, target or value changes. *)
+Lemma R_ext_r w w1 A : R w A -> ext_r w w1 -> rgraph_ok w1 -> frame w w1 -> R w1 A.
+Proof.
+  intros HR E G1 F. pose proof HR as [[[S G] [frees P] L] Hr Hu He].
+  apply (R_transfer w); try done.
+  - split; [split; [by eapply ext_r_store_ok|done]|exists frees; by rewrite (xr_pool _ _ E)|by rewrite (xr_index _ _ E), (xr_pool _ _ E)].
+  - apply F.
+  - apply F.
+  - apply F.
+  - apply F.
+  - intros e Hin. destruct (views_same w w1 (as_live A) e S Hin (ext_r_nodes _ _ E) (ext_r_cells w w1 (as_live A) e E S Hin)) as (V1 & V2 & _ & V4).
+    done.
+Qed.
+
+Lemma ghost_R w A o : R w A -> ids_reg A (ghost_ids o) -> R (ghost_of w o) A.
+Proof.
+  intros HR Hids. pose proof HR as [[[S G] _ _] Hr _ _]. unfold ids_reg in Hids. rewrite Hr in Hids.
+  destruct (ghost_of_rok w o G Hids) as [E G1]. apply (R_ext_r w); try done. apply frame_ghost_of.
+Qed.
+
+Lemma op_pre_ghost_ids A o : op_pre A o -> ids_reg A (ghost_ids o).
+Proof. destruct o; simpl; intros H; try (by apply Forall_nil); try done; by destruct H. Qed.
+
+Lemma rel_step0 w A o :
+  R w A -> op_pre A o -> R (res_world (step0 w o)) (astep A o (snd (fst (step0 w o)))).
 Proof.
   intros HR Hpre. destruct o; try (by destruct Hpre); simpl in Hpre |- *.
   - (* ONew *)
@@ -602,6 +626,14 @@ Proof.
     destruct (register_comp w key isrel zs) as [[w1 id]|] eqn:H; simpl; [|done]. by eapply R_register.
   - (* OSetListener *) by apply R_set_listener.
 Qed.
+
+Theorem rel_step w A o :
+  R w A -> op_pre A o -> R (res_world (step w o)) (astep A o (snd (fst (step w o)))).
+Proof.
+  intros HR Hpre. destruct (step_cases w o) as [[-> _]|[_ ->]]; [by apply rel_step0|].
+  simpl. apply ghost_R; [done|by apply op_pre_ghost_ids].
+Qed.
+
 
 (** ** Histories *)
 Fixpoint arun (w : world) (A : astate) (ops : list op) : world * astate :=
